@@ -620,18 +620,25 @@ func (cl *Cluster) MaxIssued() uint64 {
 func GoroutineDump() string {
 	buf := make([]byte, 4<<20)
 	buf = buf[:runtime.Stack(buf, true)]
-	var keep []string
+	var first, keep []string
 	for _, g := range strings.Split(string(buf), "\n\n") {
-		if strings.Contains(g, "verif/") || strings.Contains(g, "client-go/v2/txnkv") || strings.Contains(g, "client-go/v2/tikv.") {
-			lines := strings.Split(g, "\n")
-			if len(lines) > 24 {
-				lines = lines[:24]
-			}
+		if strings.Contains(g, "sim.GoroutineDump") {
+			continue
+		}
+		lines := strings.Split(g, "\n")
+		if len(lines) > 40 {
+			lines = lines[:40]
+		}
+		switch {
+		case strings.Contains(g, "/verif/harness/"):
+			first = append(first, strings.Join(lines, "\n"))
+		case strings.Contains(g, "client-go/v2/txnkv") || strings.Contains(g, "unistore") || strings.Contains(g, "mocktikv"):
 			keep = append(keep, strings.Join(lines, "\n"))
 		}
 	}
-	if len(keep) > 12 {
-		keep = keep[:12]
+	keep = append(first, keep...)
+	if len(keep) > 10 {
+		keep = keep[:10]
 	}
 	return strings.Join(keep, "\n\n")
 }
